@@ -7,6 +7,7 @@ import Driver.Rank
 import Driver.Filter
 import Driver.Reader
 import Driver.Quote
+import Driver.Ansi
 /-
 fzfmodel: reads protocol lines `<area> <op> <args>... => <impl answer>` on stdin and
 prints, per line, `EQ|NE PASS|FAIL|NA | model=<answer> | <reason>`.
@@ -23,6 +24,7 @@ def dispatch (ctx : Driver.Algo.Ctx) (area op : String) (args impl : List String
   | "filter" => Driver.Filter.run ctx op args impl
   | "reader" => Driver.Reader.run op args impl
   | "quote" => Driver.Quote.run op args impl
+  | "ansi" => Driver.Ansi.run op args impl
   | _ => { model := "bad-area" }
 
 def processLine (ctx : Driver.Algo.Ctx) (line : String) : String :=
